@@ -924,6 +924,19 @@ func (d *dtree) binop(st *dstate, x *ssa.BinOp) *Sym {
 		if (l.K == "nil" && r.K == "ptr" && r.Cell != nil) || (r.K == "nil" && l.K == "ptr" && l.Cell != nil) {
 			return boolSym(!eq)
 		}
+		// proto.Clone(x) is nil exactly when x is: when the path already knows about x, the clone follows
+		if l.K == "nil" || r.K == "nil" {
+			other := l
+			if l.K == "nil" {
+				other = r
+			}
+			if strings.HasPrefix(other.S, "call ") && strings.Contains(other.S, "proto.Clone(") && strings.HasSuffix(other.S, ")") {
+				arg := other.S[strings.Index(other.S, "proto.Clone(")+len("proto.Clone(") : len(other.S)-1]
+				if v, ok := st.assign[arg+"==nil"]; ok {
+					return boolSym((v == "true") == eq)
+				}
+			}
+		}
 		if l.K == "const" && r.K == "const" && l.S != "zero" && r.S != "zero" {
 			return boolSym((l.S == r.S) == eq)
 		}
@@ -943,6 +956,38 @@ func (d *dtree) binop(st *dstate, x *ssa.BinOp) *Sym {
 			return boolSym(v != "true")
 		}
 		return &Sym{K: "atom", S: "!" + eqAtom}
+	}
+	// an integer compared with a constant: every spelling becomes `(x < K)` or its negation
+	// (x <= k is x < k+1, x > k is !(x < k+1), x >= k is !(x < k), and mirrored when the constant is on the left)
+	if isIntegerType(x.X.Type()) && (lok != rok) {
+		switch x.Op {
+		case token.LSS, token.LEQ, token.GTR, token.GEQ:
+			op, sym, k := x.Op, l, ri
+			if lok { // k op x  ==  x op' k
+				sym, k = r, li
+				op = map[token.Token]token.Token{token.LSS: token.GTR, token.LEQ: token.GEQ, token.GTR: token.LSS, token.GEQ: token.LEQ}[op]
+			}
+			neg := false
+			switch op {
+			case token.LEQ:
+				k++
+			case token.GTR:
+				k++
+				neg = true
+			case token.GEQ:
+				neg = true
+			}
+			atom := fmt.Sprintf("(%s < %d)", sym.S, k)
+			if v, ok := st.assign[atom]; ok {
+				return boolSym((v == "true") != neg)
+			}
+			if neg {
+				return &Sym{K: "atom", S: "!" + atom}
+			}
+			return &Sym{K: "atom", S: atom}
+		}
+	}
+	switch x.Op {
 	case token.GTR, token.GEQ:
 		// x > y is the negation of x <= y (x >= y of x < y): both spellings share one atom
 		pos := token.LEQ
@@ -962,4 +1007,9 @@ func (d *dtree) binop(st *dstate, x *ssa.BinOp) *Sym {
 		return &Sym{K: "atom", S: atom}
 	}
 	return &Sym{K: "atom", S: "(" + l.S + " " + x.Op.String() + " " + r.S + ")"}
+}
+
+func isIntegerType(t types.Type) bool {
+	b, ok := t.Underlying().(*types.Basic)
+	return ok && b.Info()&types.IsInteger != 0
 }
